@@ -15,3 +15,5 @@ var _ net.Conn
 //@ ext (*crypto/tls.Conn).ConnectionState(c *tls.Conn) (s tls.ConnectionState)
 
 //@ ext (*crypto/tls.Conn).Handshake(c *tls.Conn) (err error)
+
+//@ ext crypto/tls.LoadX509KeyPair(certFile string, keyFile string) (c tls.Certificate, err error)
